@@ -29,7 +29,9 @@ class Layout(object):
         if self.kind == "class":
             return render.render_class(desc, self.name, default_doc=style.get("default_doc", False), plain=style.get("plain_attrs", False))
         if self.kind == "argparse_function":
-            return render.render_argparse(desc, self.name)
+            # a hand-written set_cli_args: sometimes without docstring, sometimes starting with its first add_argument
+            bare = style.get("bare_argparse")
+            return render.render_argparse(desc, self.name, docstring=not bare, description=bare != "no_description")
         if "." in self.name:
             cls, meth = self.name.split(".")
             return render.render_method(desc, cls=cls, name=meth, siblings=self.siblings,
@@ -97,7 +99,8 @@ def gen_style(ch, label, body_p=0.3):
         body = ch.choice(label + ".bodyv", [["total = 0", "print('working')"], ["loss: float = 0.0", "seen: list = []", "print(loss, seen)"],
                                             ["count: int", "count = 1", "print(count)"]])
     st = {"inline_types": ch.chance(label + ".inline", 0.7), "kwonly": ch.chance(label + ".kwonly", 0.2),
-          "default_doc": ch.chance(label + ".ddoc", 0.3), "body": body, "plain_attrs": ch.chance(label + ".plain", 0.2)}
+          "default_doc": ch.chance(label + ".ddoc", 0.3), "body": body, "plain_attrs": ch.chance(label + ".plain", 0.2),
+          "bare_argparse": ch.weighted(label + ".bare", [(None, 8), ("no_docstring", 1), ("no_description", 1)])}
     if ch.chance(label + ".docstyle", DOCSTYLE_P):
         # a function whose author writes google / numpydoc docstrings (sync itself always emits ReST)
         st["docstyle"] = ch.choice(label + ".docstylev", ["google", "numpydoc", "rest_compact"])
@@ -409,6 +412,12 @@ def sp_op(proj, ch, lab, _files):
     samename = same.chance("samename", 0.3)
     if samename:
         cattr = same.choice("which", [okw, okw2, oarg, omarg, oattr])
+    # the same for parameters: a parameter of an input function / method bears the name of the output parameter it is copied to
+    samearg = None if samename else same.weighted("samearg", [(None, 5), ("fn", 1), ("method", 1)])
+    if samearg == "fn":
+        farg = oarg
+    elif samearg == "method":
+        marg = omarg
     typs = ["Literal['a', 'b']", "Optional[int]", "int", "Literal['x']", "Optional[str]", "float"]
 
     def td(l):
@@ -491,8 +500,13 @@ def sp_op(proj, ch, lab, _files):
             pairs[j] = [a, o]
         pairs = [x for x in pairs if x]
         npairs = len(pairs)
+    if samearg and not ev:
+        mine = ["source_fn." + farg, "target_fn." + oarg] if samearg == "fn" else ["Source.method." + marg, "Target.method." + omarg]
+        scope = mine[1].rpartition(".")[0]
+        pairs = [mine] + [x for x in pairs if x[1].rpartition(".")[0] != scope and x[0].rpartition(".")[2] != mine[0].rpartition(".")[2]][:1]
+        npairs = len(pairs)
     clash = False
-    if not ev and not samename and ch.chance(lab + ".clash", 0.18):
+    if not ev and not samename and not samearg and ch.chance(lab + ".clash", 0.18):
         # an earlier pair writes a name into a definition in which a later pair addresses a property of that very name
         # (the classic "swap two parameters"): each pair must still hit the property it addresses in the file as given
         clash = True
